@@ -34,11 +34,20 @@ ASSUMPTIONS = [
 ]
 
 BASE, PER_BYTE = 2000, 400
+# Work done inside C code (regular expressions, big allocations) produces no LINE events.  Two
+# coarse nets behind the step budget, both far from anything a linear decoder needs for <= 64 KiB:
+STALL_LIMIT = 60          # seconds of wall-clock one case may take before the parent kills the shard
+MEM_LIMIT = 8 << 30       # address-space limit of a shard; MemoryError inside a decoder is a violation
 DEC = {}
 F = {}
 
 
 def setup(ctx):
+    import resource
+
+    soft, hard = resource.getrlimit(resource.RLIMIT_AS)
+    if soft == resource.RLIM_INFINITY or soft > MEM_LIMIT:
+        resource.setrlimit(resource.RLIMIT_AS, (MEM_LIMIT, hard))
     common.import_pyscsi()
     for f in respgen.all_formats():
         F[f.name] = f
@@ -145,7 +154,14 @@ def mutated(draw, name):
 
 def make_check(name):
     def check(case):
-        run_one(name, case["buf"], case["sel"])
+        common.heartbeat(name, case)
+        try:
+            run_one(name, case["buf"], case["sel"])
+        except MemoryError:
+            raise Violation("memory_exhausted", {"decoder": name, "len": len(case["buf"]), "limit_bytes": MEM_LIMIT,
+                                                 "head": bytes(case["buf"][:48]).hex()})
+        finally:
+            common.heartbeat()
         k = case["kind"]
         return (k == "mutated_header" or (k.startswith("raw") and len(case["buf"]) >= 64)), (k,)
     return check
@@ -212,7 +228,7 @@ def fuzz(ctx):
         os.makedirs(scratch, exist_ok=True)
         env = dict(os.environ, C11_FUZZ_DECODER=name)
         p = subprocess.run([sys.executable, "-B", os.path.join(os.path.dirname(__file__), "c11_fuzz_target.py"),
-                            "-runs=%d" % runs, "-seed=%d" % (ctx.seed % 1000000 + 1), "-max_len=4096",
+                            "-runs=%d" % runs, "-seed=%d" % (ctx.seed % 1000000 + 1), "-max_len=4096", "-timeout=%d" % STALL_LIMIT,
                             "-artifact_prefix=" + scratch + "/", scratch], env=env, capture_output=True, text=True, timeout=3000)
         done = [l for l in p.stderr.splitlines() if l.startswith("Done ")]
         total += int(done[-1].split()[1]) if done else 0
